@@ -706,6 +706,7 @@ def run_controlled(op, *, prefix=(), is_async=False, batch_order=False, watchdog
 # --------------------------------------------------------------------------- harness node functions
 
 FAIL: Dict[str, str] = {}  # node id -> 'V' | 'U'  (set by the check before running a program)
+FAIL_IF_ARG: Dict[str, Any] = {}  # node id -> value: the node raises when one of its positional arguments equals it
 
 
 class UserError(Exception):
@@ -716,6 +717,8 @@ def node_body(fname: str, a: tuple, k: dict):
     c = ctl()
     nid, serial = c.node_enter(fname, a, k)
     f = FAIL.get(nid)
+    if f is None and nid in FAIL_IF_ARG and any(type(x) is type(FAIL_IF_ARG[nid]) and x == FAIL_IF_ARG[nid] for x in a):
+        f = "V"
     if f is not None:
         c.node_exit(nid, serial, "raise")
         raise (ValueError if f == "V" else UserError)(f"boom in {nid}")
